@@ -656,6 +656,12 @@ func (g *JSGen) Stmt(depth int) string {
 		if g.F.Generators && g.F.ES2015 && r.Chance(50) {
 			g.count("generator")
 			f := g.fresh("g")
+			if r.Chance(40) {
+				// a yield operand containing `in` inside a for-loop initialiser must
+				// stay parenthesised when printed
+				g.count("yield-in-for-init")
+				return "function* " + f + "() { for (var k = yield (\"a\" in {a: 1}), n = 0; n < 1; n++) { " + g.probeCall("k") + "; } return 3 }\n" + g.probeCall("Array.from("+f+"())") + ";"
+			}
 			return "function* " + f + "() { yield " + g.probeCall(g.number()) + "; yield* [" + g.Expr(1, lvAssign) + "]; return 3 }\n" + g.probeCall("Array.from("+f+"())") + ";"
 		}
 		return g.exprStmt(3)
